@@ -11,8 +11,8 @@ package table
 
 import (
 	"fmt"
-	"log/slog"
 	"io"
+	"log/slog"
 	"net/netip"
 	"testing"
 
